@@ -214,6 +214,15 @@ func TestC17(t *testing.T) {
 			} else {
 				src = "find " + strings.Join(genAmount(t), " ") + " " + body
 			}
+			if rapid.IntRange(0, 3).Draw(t, "second") == 0 {
+				// a second command: the result list then mixes matches with and without a replacement
+				body2 := rapid.SampledFrom(jsonBodies).Draw(t, "body2")
+				if rapid.Bool().Draw(t, "second_replace") {
+					src += " replace all " + body2 + " with '<' value '>'"
+				} else {
+					src += " find all " + body2
+				}
+			}
 			text = strings.Join(rapid.SliceOfN(rapid.SampledFrom(jsonTextPieces), 0, 10).Draw(t, "jtext"), "")
 		} else {
 			s, tx, _ := genWideProgram(t, true)
